@@ -38,3 +38,24 @@ def witness_fails(finding):
     """True when the recorded witness still violates the property on the current tree."""
     fn = WITNESSES[finding["witness"]]
     return bool(fn())
+
+
+# ------------------------------------------------------------------ C02 / C05: deep equality delegates to Python ==
+
+@carveout("deep_eq_py_vs_rfc")
+def _deep_eq(ctx):
+    """Both operands are arrays (or both objects) on which Python's deep == and RFC equality
+    disagree, i.e. they hold a boolean where the other holds an equal number at some depth."""
+    l, r = ctx.inputs["left"], ctx.inputs["right"]
+    return z3.Or(
+        z3.And(Py.is_list(l), Py.is_list(r), S.seq_eq_py(Py.items(l), Py.items(r)) != S.seq_eq_rfc(Py.items(l), Py.items(r))),
+        z3.And(Py.is_dict(l), Py.is_dict(r), S.dict_eq_py(l, r) != S.dict_eq_rfc(l, r)),
+    )
+
+
+@witness("compare_list_bool_number")
+def _w_deep_eq():
+    env = importlib.import_module("jsonpath.env").JSONPathEnvironment()
+    import specs.rfc9535_filter as fspec
+
+    return env.compare([1], "==", [True]) != fspec.rfc_compare([1], "==", [True])
